@@ -6,6 +6,8 @@ import Qentem.Proofs.TmplParseVarRaw
 import Qentem.Proofs.TmplLoopVar
 import Qentem.Proofs.TmplParseLoop
 import Qentem.Proofs.TmplParseAll
+import Qentem.Proofs.TmplParseTotal
+import Qentem.Proofs.TmplRenderTotal
 import Qentem.Generated.Tmpl
 /-!
 # C01 — rendering any template text with any value is memory-safe and terminates
@@ -25,7 +27,11 @@ Proved here (for every content, every character width — code units are `Nat`):
   and renders to itself for every value.
 * `parse_wf`, `render_safe`  the complete safety statement: every content that fits `SizeT`, every
   value.
-Open: only the totality of the model's fuel (`ParseSafe`, `RenderSafe` as stated below).
+* `parse_total`  the tag scanner model returns a (well-formed) tag list for every content that fits
+  `SizeT`: its fuel is never exhausted.
+* `render_total`  some fuel makes `renderTop` return a text (same conditions as `render_safe`).
+Open: nothing in this file (`ParseSafe` / `RenderSafe` below are the unconditioned forms of `parse_total` /
+`render_total`).
 -/
 namespace Qentem.Props.C01
 open Qentem.Tmpl Qentem.Generated.Tmpl Qentem.Expr
@@ -266,14 +272,43 @@ theorem render_safe {R : Type} [RealLike R] (cx : RCtx R) (hg : cx.guardIndexRea
 example : FitsSizeT ("{if case=\"1\" true=\"{var:a}\"}{svar:s, {raw:b}}<loop value='v'>{math:{var:v}}".toList.map Char.toNat) := by
   unfold FitsSizeT; decide
 
-/-- Open statement (model totality, not safety): the tag scanner model never runs out of its fuel
-`2·n + 4` either, i.e. `parse` returns a list.  `parse_wf` shows that the only possible failure is
-that fuel. -/
+/-- **`parse` is total** (the former open statement `ParseSafe`, with the size condition): for every
+content that fits `SizeT` and every number reader the tag scanner model returns a tag list — no
+failed read and no exhausted fuel — and the list is well-formed.  Proofs/TmplParseTotal.lean: every
+scanner function fails with nothing but a failed read (the inner loops return at fuel 0; the
+expression scanner never exhausts its fuel on any range, `parseTop_tq`), which `parse_wf` excludes;
+every step of the main loop moves the Finder forward or ends the scan, so `2·n + 4` iterations
+suffice. -/
+theorem parse_total {R : Type} (cfg : ScanCfg R) (c : List Nat) (hn : FitsSizeT c) :
+    ∃ tags, parse cfg c = .ok tags ∧ wf c.length tags = true :=
+  Qentem.Tmpl.parse_total cfg c hn
+    (by have : (2 : Nat) ^ bits_InLineIfTag_TrueTagsStartID = 4294967296 := by decide
+        rw [this]; unfold FitsSizeT at hn; omega)
+    (by have : (2 : Nat) ^ bits_InLineIfTag_FalseTagsStartID = 4294967296 := by decide
+        rw [this]; unfold FitsSizeT at hn; omega)
+
+/-- Statement without the size condition (kept as written in the design; `parse_total` is the
+proved form: contents that do not fit `SizeT` are outside the code's contract). -/
 def ParseSafe : Prop :=
   ∀ (R : Type) (cfg : ScanCfg R) (c : List Nat), ∃ tags, parse cfg c = .ok tags
 
-/-- Open statement (model totality): with enough fuel rendering returns a text.  `render_safe` shows
-that the only possible failure is fuel. -/
+/-- **rendering is total** (the former open statement `RenderSafe`, with the two conditions of
+`render_safe`): for every content that fits `SizeT`, every value, formatter, sort and group function
+`parse` returns a tag list and some fuel makes `renderTop` return a text.  Proofs/TmplRenderTotal.lean:
+`render_mono` (more fuel never changes a result that is not "out of fuel"), `render_ex_all` (for
+every tag list and state some fuel gives a value or a failed access: induction on the size of the
+list, over the items of each loop, the units of each phrase, the cases of each `<if>`); the failed
+access is excluded by `render_safe_of_wf`. -/
+theorem render_total {R : Type} [RealLike R] (cx : RCtx R) (hg : cx.guardIndexRead = true)
+    (cfg : ScanCfg R) (hn : FitsSizeT cx.content) :
+    ∃ tags fuel out, parse cfg cx.content = .ok tags ∧ renderTop cx tags fuel = .ok out := by
+  obtain ⟨tags, hp, hw⟩ := parse_total cfg cx.content hn
+  obtain ⟨fuel, hf⟩ := Qentem.Tmpl.renderTop_ex cx tags
+  obtain ⟨out, ho, _⟩ := Qentem.Expr.TQ.total (render_safe_of_wf cx hg tags hw fuel) hf
+  exact ⟨tags, fuel, out, hp, ho⟩
+
+/-- Statement without the conditions (kept as written in the design; `render_total` is the proved
+form). -/
 def RenderSafe : Prop :=
   ∀ (R : Type) [RealLike R] (cx : RCtx R) (cfg : ScanCfg R) (tags : List (Tag R)),
     parse cfg cx.content = .ok tags → ∃ fuel out, renderTop cx tags fuel = .ok out
